@@ -52,8 +52,9 @@ mod v_iface_egress {
             // (measured: out of memory at 8 GB); the oversize branch is C12's harnesses' subject
             let $mtu = 1500usize;
             let mut dev = CapDev::<N>::new(Medium::Ethernet, $mtu + 14, ChecksumCapabilities::default());
-            let now: i64 = kani::any();
-            kani::assume(now >= 0 && now < (1i64 << 40));
+            // concrete time: frame layout does not depend on it, and a symbolic instant makes the neighbor-cache
+            // bookkeeping (expiry comparisons, eviction) symbolic: measured 2.7 M symex steps and OOM at 8 GB
+            let now: i64 = 1000;
             let mut $iface = Interface::new(Config::new(HardwareAddress::Ethernet(EthernetAddress(OWN_MAC))), &mut dev, Instant::from_millis(now));
             $iface.update_ip_addrs(|a| {
                 a.push(IpCidr::new(IpAddress::Ipv4(OWN), 24)).unwrap();
@@ -79,7 +80,7 @@ mod v_iface_egress {
         total
     }
 
-    // @harness props=C10,C09 cfg=KI4 tier=q to=900 mem=8 unwind=50 opts=nomem,fs300 covers=1 funcs=InterfaceInner::dispatch_ip;InterfaceInner::lookup_hardware_addr;Packet::emit_payload;wire::Ipv4Repr::emit;wire::UdpRepr::emit bounds=Ethernet,_MTU_1500,_tx_checksums_on;_UDP_with_any_ports,_hop_limit_and_4_payload_bytes;_neighbor_cached
+    // @harness props=C10,C09 cfg=KI4 tier=q to=900 mem=8 unwind=50 opts=nomem covers=1 funcs=InterfaceInner::dispatch_ip;InterfaceInner::lookup_hardware_addr;Packet::emit_payload;wire::Ipv4Repr::emit;wire::UdpRepr::emit bounds=Ethernet,_MTU_1500,_tx_checksums_on;_UDP_with_any_ports,_hop_limit_and_4_payload_bytes;_neighbor_cached
     #[kani::proof]
     pub(crate) fn frame_wf_udp4() {
         env_eth!(iface, tx, mtu);
